@@ -594,6 +594,28 @@ func (vc *VC) runOnce() {
 			vc.addObl("post", name, r.st, g, fn.Pos(), cl.Tags, cl.Text)
 		}
 	}
+	// frame of the stream ghost: a reader whose position this function advances must be declared (modifies stream(r)),
+	// otherwise callers would keep believing the position unchanged
+	if vc.modset != nil && !vc.modset.All {
+		if _, ok := vc.arrays["G_pos"]; ok {
+			for ri, r := range rets {
+				fin := vc.heapGet(r.st, "G_pos", "(Array Int Int)")
+				ent := vc.heapGet(vc.entry, "G_pos", "(Array Int Int)")
+				if fin == ent {
+					continue
+				}
+				t := ent
+				for _, sr := range vc.modset.Streams {
+					t = Sto(t, sr, Sel(fin, sr))
+				}
+				name := "frame:streams"
+				if multi {
+					name = fmt.Sprintf("frame:streams/r%d", ri+1)
+				}
+				vc.addObl("frame", name, r.st, Eq(fin, t), fn.Pos(), nil, "only the declared streams advance")
+			}
+		}
+	}
 	// "final P": an assertion about the state in which the function returns that may mention its local variables (the
 	// callers never see it). It is checked at every return statement where all the locals it names are in scope, and must
 	// be checkable at one of them at least.
@@ -859,7 +881,7 @@ func symNumber(sym string) int {
 // inferredFrame: if every update of array n inside the loop touches an object/region whose identity is the same in every
 // iteration (a term over symbols that existed before the loop), then all other objects/regions of n are unchanged by the loop.
 func (vc *VC) inferredFrame(n, hdr, pre string, li *LoopInfo) {
-	if strings.HasPrefix(n, "G_") || vc.dry {
+	if (strings.HasPrefix(n, "G_") && n != "G_pos") || vc.dry {
 		return
 	}
 	sort := vc.arrays[n]
